@@ -20,6 +20,7 @@ SubPass(s, o) ==
       [] s = "condB"  -> o.shape = "ok" /\ o.condB = "True"
       [] s = "fields" -> o.fields = "equal"                 \* missing field or different value fails
       [] s = "cel"    -> o.x > 0
+      [] s = "celEmpty" -> o.x > 0                          \* a CEL probe without a message fails like any other
       [] OTHER        -> TRUE
 
 SumSeq(s) == LET F[i \in 0..Len(s)] == IF i = 0 THEN 0 ELSE F[i - 1] + s[i] IN F[Len(s)]
